@@ -2,15 +2,18 @@
 Property C08 — Replication: a follower's log is a gap-free, byte-identical copy of the leader's.
 
 All theorems quantify over EVERY event sequence `evs : List Ev` of the model
-(`LinVerif.Replication.run cfg evs`): leader appends interleaved with replica steps carrying
-any connection fault (client creation, get-ack rpc, reset rpc, stream creation, send, recv),
-follower restarts, a follower that lost its log, snapshots and restores of the leader's
-partition directory (= the leader loses its log tail), leader restarts, follower
-offline/online notifications, leader log GC and a second consumer group holding GC back;
+(`LinVerif.Replication.run cfg evs`): a leader with TWO followers; leader appends interleaved with
+replica steps of either follower carrying any connection fault (client creation, get-ack rpc, reset
+rpc, stream creation, request lost, response lost), follower restarts, a follower that lost its log,
+snapshots of the leader's partition directory and restores of ANY saved image (= the leader loses its
+log tail; older after newer included), leader restarts, follower offline/online notifications, leader
+log Sync/GC, the expiry check that stops drained groups and destroys a drained partition;
 and over both shapes `cfg` of the comparison that guards `ResetAppendIndex`.
-Helper lemmas: `LinVerif/Lemmas/C08Log.lean`, `LinVerif/Lemmas/C08Inv.lean`.
+Theorems are stated for follower A (fields without suffix); the model is symmetric under `St.swap`
+and the invariant is proved for both followers (`no_holes_b`, `agreement_b`, ... are the B instances).
+Helper lemmas: `LinVerif/Lemmas/C08Log.lean`, `C08Inv.lean`, `C08Step.lean`, `C08Run.lean`, `C08Live.lean`.
 -/
-import LinVerif.Lemmas.C08Inv
+import LinVerif.Lemmas.C08Run
 import LinVerif.Lemmas.C08Live
 import LinVerif.Generated.C08
 
@@ -22,12 +25,16 @@ open LinVerif.Replication
 /-- The follower's log never has holes: every position it claims (`ack < i ≤ appended`) is readable. -/
 theorem no_holes (cfg : Cfg) (evs : List Ev) (i : Int) :
     (run cfg evs).F.ack < i → i ≤ (run cfg evs).F.app → ∃ m, (run cfg evs).F.get i = some m :=
-  (binv_run cfg evs).1.fint.holes i
+  (full_run cfg evs).a.fint.holes i
+
+theorem no_holes_b (cfg : Cfg) (evs : List Ev) (i : Int) :
+    (run cfg evs).F2.ack < i → i ≤ (run cfg evs).F2.app → ∃ m, (run cfg evs).F2.get i = some m :=
+  (full_run cfg evs).b.fint.holes i
 
 /-- The same for the leader's log (this is what makes `IgnoreMessage` unreachable). -/
 theorem leader_no_holes (cfg : Cfg) (evs : List Ev) (i : Int) :
     (run cfg evs).L.ack < i → i ≤ (run cfg evs).L.app → ∃ m, (run cfg evs).L.get i = some m :=
-  (binv_run cfg evs).1.lint.holes i
+  (full_run cfg evs).a.lint.holes i
 
 /-! ## 2. agreement -/
 
@@ -35,61 +42,125 @@ theorem leader_no_holes (cfg : Cfg) (evs : List Ev) (i : Int) :
 by both logs holds the same bytes. -/
 theorem agreement (cfg : Cfg) (evs : List Ev) (h : NoLoss evs) (i : Int) (m m' : Msg) :
     (run cfg evs).L.get i = some m → (run cfg evs).F.get i = some m' → m = m' :=
-  fun hl hf => agreement_of_g (nl_run cfg evs h).g hl hf
+  fun hl hf => agreement_of_g (nlf_run cfg evs h).a.g hl hf
+
+theorem agreement_b (cfg : Cfg) (evs : List Ev) (h : NoLoss evs) (i : Int) (m m' : Msg) :
+    (run cfg evs).L.get i = some m → (run cfg evs).F2.get i = some m' → m = m' :=
+  fun hl hf => agreement_of_g (nlf_run cfg evs h).b.g hl hf
 
 /-- "A message the leader stores at position i is stored by a follower at position i or not at
 all" (no tail loss): whatever the follower holds at `i` is what the leader's pages hold at `i`,
-even after the leader has acknowledged/GC'ed past `i`; and the follower is never ahead. -/
+even after the leader has acknowledged/GC'ed past `i`; the follower is never ahead of the leader,
+and its log never starts beyond the leader's ack for it. -/
 theorem stored_at_same_position_or_not_at_all (cfg : Cfg) (evs : List Ev) (h : NoLoss evs) (i : Int) (m' : Msg) :
     (run cfg evs).F.get i = some m' →
       i ≤ (run cfg evs).L.app ∧ lookup i (run cfg evs).L.store = some m' :=
-  (nl_run cfg evs h).g i m'
+  (nlf_run cfg evs h).a.g i m'
+
+theorem follower_base_within_ack (cfg : Cfg) (evs : List Ev) (h : NoLoss evs) :
+    (run cfg evs).F.ack ≤ (run cfg evs).gack ∧ (run cfg evs).F.app ≤ (run cfg evs).L.app :=
+  ⟨(nlf_run cfg evs h).a.f_ack, (nlf_run cfg evs h).a.f_app⟩
 
 /-- All histories, including leader tail loss, at every moment: the positions the leader has
 handed out to this follower and not yet seen acknowledged (`gack < i ≤ consumed`) agree. -/
 theorem agreement_inflight (cfg : Cfg) (evs : List Ev) (i : Int) (m m' : Msg) :
     (run cfg evs).gack < i → i ≤ (run cfg evs).cons →
     (run cfg evs).L.get i = some m → (run cfg evs).F.get i = some m' → m = m' :=
-  (binv_run cfg evs).1.agr i m m'
+  (full_run cfg evs).a.agr i m m'
 
 /-- All histories, including leader tail loss: whenever the channel is synced (leader state
-`ready` and the stream really there), every position ABOVE the follower group's ack that both
-hold holds the same bytes.
+`ready` and the stream really there) and has not been disturbed by the other follower's handshake,
+every position ABOVE the follower group's ack that both hold holds the same bytes.
 
 Full-strength statement (no `gack < i`): "whenever the channel is synced, every position held by
 both holds the same bytes" — FALSE of the code, see `Neg.agreement_synced_full_fails`. -/
-theorem agreement_leader_loss_partial (cfg : Cfg) (evs : List Ev) (hs : Synced (run cfg evs)) (i : Int) (m m' : Msg) :
+theorem agreement_leader_loss_partial (cfg : Cfg) (evs : List Ev) (hs : Synced (run cfg evs))
+    (hd : (run cfg evs).dz = false) (i : Int) (m m' : Msg) :
     (run cfg evs).gack < i →
     (run cfg evs).L.get i = some m → (run cfg evs).F.get i = some m' → m = m' := by
   intro hg hl hf
-  have hb := binv_run cfg evs
-  have hc := hb.1.sync hs.1 (by rw [hs.2]; intro e; cases e)
+  have hb := full_run cfg evs
+  have hc := hb.a.sync hs.1 hd (by rw [hs.2]; intro e; cases e)
   have hi := (get_some hf).2.1
-  exact hb.1.agr i m m' hg (by omega) hl hf
+  exact hb.a.agr i m m' hg (by omega) hl hf
 
 /-! ## 3. acknowledgements are sound -/
 
-/-- Whenever a non-restart event moves the follower group's ack, the new ack is a position the
-follower has appended (covers `SetAckIndex` in Replica, in the handshake and in IgnoreMessage). -/
-theorem ack_sound (cfg : Cfg) (evs : List Ev) (e : Ev) (he : e.isRestart = false) :
+/-- Whenever an event of follower A moves A's group ack, the new ack is a position the follower has
+appended (covers `SetAckIndex` in Replica, in the handshake and in IgnoreMessage). -/
+theorem ack_sound (cfg : Cfg) (evs : List Ev) (e : Ev) (he : e.who = some .a) (hg : (run cfg evs).gone = false) :
     (next cfg (run cfg evs) e).1.gack ≠ (run cfg evs).gack →
     (next cfg (run cfg evs) e).1.gack ≤ (next cfg (run cfg evs) e).1.F.app :=
-  (next_spec cfg _ e (binv_run cfg evs)).ackok he
+  ((next_spec cfg _ e (full_run cfg evs)).pa he hg).ackok
 
-/-- A synced channel never treats a position as acknowledged that the follower has not appended. -/
-theorem ack_sound_synced (cfg : Cfg) (evs : List Ev) (hs : Synced (run cfg evs)) :
+/-- Leader-wide events other than restarts (append, snapshot, Sync/GC, expiry) never move a group's ack
+nor touch a follower's log. -/
+theorem ack_sound_leader_events (cfg : Cfg) (evs : List Ev) (e : Ev) (he : e.who = none) (hr : e.isRestart = false) :
+    (next cfg (run cfg evs) e).1.gack = (run cfg evs).gack ∧ (next cfg (run cfg evs) e).1.F = (run cfg evs).F :=
+  ⟨((next_spec cfg _ e (full_run cfg evs)).glob he hr).1, ((next_spec cfg _ e (full_run cfg evs)).glob he hr).2.2.1⟩
+
+/-- Histories without leader tail loss: the OTHER follower's events never move A's group.
+With tail loss this is false (`Neg.other_follower_moves_group`): `ResetAppendIndex` moves every group. -/
+theorem ack_sound_other_partial (cfg : Cfg) (evs : List Ev) (h : NoLoss evs) (e : Ev) (he : e.who = some .b)
+    (hg : (run cfg evs).gone = false) :
+    (next cfg (run cfg evs) e).1.gack = (run cfg evs).gack ∧ (next cfg (run cfg evs) e).1.cons = (run cfg evs).cons := by
+  have hp := (next_spec cfg _ e (full_run cfg evs)).pb he hg
+  have hpl := frame_plain_of_nl hp.frame (nlf_swap (nlf_run cfg evs h)).a
+  exact ⟨hpl.2.2.2.1, hpl.2.2.1⟩
+
+/-- Histories without leader tail loss: every position an event of A newly acknowledges is held by
+the follower at that moment. -/
+theorem ack_covers (cfg : Cfg) (evs : List Ev) (h : NoLoss evs) (e : Ev) (he : e.who = some .a)
+    (hg : (run cfg evs).gone = false) (i : Int) :
+    (run cfg evs).gack < i → i ≤ (next cfg (run cfg evs) e).1.gack →
+    ∃ m, (next cfg (run cfg evs) e).1.F.get i = some m := by
+  intro h1 h2
+  have hn := next_spec cfg _ e (full_run cfg evs)
+  have hp := hn.pa he hg
+  have hfa := (nlf_run cfg evs h).a.f_ack
+  have hge := (full_run cfg evs).a.lint.gack_ge
+  apply hn.full.a.fint.holes i
+  · rcases hp.fack with x | x | x <;> omega
+  · exact hp.cover i h1 h2
+
+/-- A synced, undisturbed channel never treats a position as acknowledged that the follower has not appended. -/
+theorem ack_sound_synced (cfg : Cfg) (evs : List Ev) (hs : Synced (run cfg evs)) (hd : (run cfg evs).dz = false) :
     (run cfg evs).gack ≤ (run cfg evs).F.app := by
-  have hb := binv_run cfg evs
-  have hc := hb.1.sync hs.1 (by rw [hs.2]; intro e; cases e)
-  have := hb.1.lint.gack_cons
+  have hb := full_run cfg evs
+  have hc := hb.a.sync hs.1 hd (by rw [hs.2]; intro e; cases e)
+  have := hb.a.lint.gack_cons
   omega
 
-/-- Restarts never move the group's ack (the re-open lift to the queue's ack is a no-op). -/
-theorem restart_keeps_ack (cfg : Cfg) (evs : List Ev) :
+/-- Histories without leader tail loss: the same without the ghost hypothesis. -/
+theorem ack_sound_synced_noloss (cfg : Cfg) (evs : List Ev) (h : NoLoss evs) (hs : Synced (run cfg evs)) :
+    (run cfg evs).gack ≤ (run cfg evs).F.app :=
+  ack_sound_synced cfg evs hs (nlf_run cfg evs h).dza
+
+/-- A leader restart never moves the ack of a registered group (the re-open lift is a no-op). -/
+theorem restart_keeps_ack (cfg : Cfg) (evs : List Ev) (hst : (run cfg evs).stopped = false)
+    (hg : (run cfg evs).gone = false) :
     (next cfg (run cfg evs) .lrestart).1.gack = (run cfg evs).gack := by
-  have hl := (binv_run cfg evs).1.lint
-  simp only [next, reopenLeader]
-  rw [if_neg (by have := hl.ack_gack; omega)]
+  have ha := (full_run cfg evs).a.ackg hst
+  have e : (next cfg (run cfg evs) .lrestart).1 = reopenLeader (run cfg evs) (run cfg evs).image := by
+    simp [next, hg, Ev.who]
+  rw [e]
+  show liftAck (run cfg evs).gack (run cfg evs).L.ack = _
+  unfold liftAck
+  split <;> omega
+
+/-- The leader never discards a position a follower has not acknowledged: the expiry check stops a
+follower's group (and reports the partition expired) only when the group's ack has reached the
+leader's appended index. -/
+theorem expire_safe (cfg : Cfg) (evs : List Ev) (hg : (run cfg evs).gone = false) :
+    ((next cfg (run cfg evs) .expire).1.stopped = true → (run cfg evs).stopped = false →
+      (run cfg evs).L.app ≤ (run cfg evs).gack) ∧
+    ((next cfg (run cfg evs) .expire).1.stopped2 = true → (run cfg evs).stopped2 = false →
+      (run cfg evs).L.app ≤ (run cfg evs).gack2) ∧
+    ((next cfg (run cfg evs) .expire).2 = .expired →
+      ((run cfg evs).stopped = false → (run cfg evs).L.app ≤ (run cfg evs).gack) ∧
+      ((run cfg evs).stopped2 = false → (run cfg evs).L.app ≤ (run cfg evs).gack2)) := by
+  have hp := (next_spec cfg _ .expire (full_run cfg evs)).exp rfl hg
+  exact ⟨hp.stopA_ok, hp.stopB_ok, hp.exp_ok⟩
 
 /-! ## 4. resynchronisation -/
 
@@ -101,115 +172,156 @@ theorem resync_handshake (cfg : Cfg) (evs : List Ev) (f : Fault)
     (isReady cfg (run cfg evs) f).1.chan = .ready ∧
     (isReady cfg (run cfg evs) f).1.cons + 1 = (isReady cfg (run cfg evs) f).1.F.app + 1 ∧
     (isReady cfg (run cfg evs) f).1.cons + 1 = max ((run cfg evs).F.app + 1) ((run cfg evs).gack + 1) := by
-  have hb := binv_run cfg evs
+  have hb := full_run cfg evs
   unfold isReady at hok ⊢
   rw [if_neg hn] at hok ⊢
   split at hok
   · simp at hok
   · rename_i hl
     rw [if_neg hl]
-    have hs := handshake_spec cfg (run cfg evs) f hb.1
+    have hs := handshake_spec cfg (run cfg evs) f hb.a
     have h1 := hs.ok_ready hok
     have h2 := hs.ok_idx hok
     refine ⟨h1.1, by omega, ?_⟩
     rw [h2]
     split <;> omega
 
-/-- On a synced channel the next index the leader sends is exactly the follower's next index. -/
-theorem resync_sends_next (cfg : Cfg) (evs : List Ev) (hs : Synced (run cfg evs)) :
+/-- On a synced, undisturbed channel the next index the leader sends is exactly the follower's next index. -/
+theorem resync_sends_next (cfg : Cfg) (evs : List Ev) (hs : Synced (run cfg evs)) (hd : (run cfg evs).dz = false) :
     (run cfg evs).cons + 1 = (run cfg evs).F.app + 1 := by
-  have hb := binv_run cfg evs
-  have hc := hb.1.sync hs.1 (by rw [hs.2]; intro e; cases e)
+  have hb := full_run cfg evs
+  have hc := hb.a.sync hs.1 hd (by rw [hs.2]; intro e; cases e)
   omega
 
-/-- No event of any history ever ends in the "answer ≠ sent index" branch of Replica (the
-"TODO: need reset ack sequence?" branch) nor in IgnoreMessage: both are unreachable under the
-modelled faults. -/
-theorem resync_unreachable_mismatch (cfg : Cfg) (evs : List Ev) (e : Ev) :
-    (next cfg (run cfg evs) e).2 ≠ .mismatch ∧ (next cfg (run cfg evs) e).2 ≠ .ignored :=
-  (next_spec cfg _ e (binv_run cfg evs)).label
+/-- No event of any history ever ends in IgnoreMessage; and no event of follower A ends in the
+"answer ≠ sent index" branch of Replica ("TODO: need reset ack sequence?") unless the other
+follower's handshake has moved A's group while A's channel was ready (ghost `dz`).
+Full-strength (no `dz`): false with two followers and leader tail loss, `Neg.mismatch_reachable`. -/
+theorem resync_unreachable_mismatch_partial (cfg : Cfg) (evs : List Ev) (e : Ev) :
+    (next cfg (run cfg evs) e).2 ≠ .ignored ∧
+    (e.who = some .a → (run cfg evs).dz = false → (next cfg (run cfg evs) e).2 ≠ .mismatch) := by
+  have hn := next_spec cfg _ e (full_run cfg evs)
+  refine ⟨hn.ignored, fun he hd => ?_⟩
+  by_cases hg : (run cfg evs).gone = false
+  · exact (hn.pa he hg).label.2 hd
+  · have := hn.goneKeep (by simpa using hg)
+    rw [this.2]; simp
 
-/-- Progress of a synced channel: with data pending and no fault, one step appends the next
-leader message at the follower's next position, byte-identical, and acknowledges it. -/
-theorem resync_progress (cfg : Cfg) (evs : List Ev) (hs : Synced (run cfg evs))
-    (hsusp : (run cfg evs).susp = false) (hd : (run cfg evs).cons < (run cfg evs).L.app) :
-    (next cfg (run cfg evs) (.step .none)).2 = .acked ∧
-    (next cfg (run cfg evs) (.step .none)).1.F.app = (run cfg evs).F.app + 1 ∧
-    (next cfg (run cfg evs) (.step .none)).1.gack = (run cfg evs).F.app + 1 ∧
-    (next cfg (run cfg evs) (.step .none)).1.F.get ((run cfg evs).F.app + 1)
+/-- Histories without leader tail loss: both branches are unreachable, for either follower. -/
+theorem resync_unreachable_mismatch (cfg : Cfg) (evs : List Ev) (h : NoLoss evs) (e : Ev) :
+    (next cfg (run cfg evs) e).2 ≠ .ignored ∧ (next cfg (run cfg evs) e).2 ≠ .mismatch := by
+  have hn := next_spec cfg _ e (full_run cfg evs)
+  have hnl := nlf_run cfg evs h
+  refine ⟨hn.ignored, ?_⟩
+  by_cases hg : (run cfg evs).gone = false
+  · cases hw : e.who with
+    | none =>
+      cases e <;> simp [Ev.who] at hw
+      all_goals (simp only [next, hg, Ev.who, Bool.false_eq_true, if_false]; try (split <;> simp))
+      all_goals (try simp)
+      · have := (expire_spec _ (full_run cfg evs)).lbl
+        rcases this with x | x <;> rw [x] <;> simp
+    | some w =>
+      cases w with
+      | a => exact (hn.pa hw hg).label.2 hnl.dza
+      | b => exact (hn.pb hw hg).label.2 hnl.dzb
+  · have := hn.goneKeep (by simpa using hg)
+    rw [this.2]; simp
+
+theorem next_step_a (cfg : Cfg) (s : St) (f : Fault) (hg : s.gone = false) (hst : s.stopped = false)
+    (hs : s.susp = false) : next cfg s (.step .a f) = replicaStep cfg s f := by
+  simp [next, hg, Ev.who, peerEv, hst, hs]
+
+/-- Progress of a synced, undisturbed channel: with data pending and no fault, one step appends the
+next leader message at the follower's next position, byte-identical, and acknowledges it. -/
+theorem resync_progress (cfg : Cfg) (evs : List Ev) (hs : Synced (run cfg evs)) (hd : (run cfg evs).dz = false)
+    (hg : (run cfg evs).gone = false) (hst : (run cfg evs).stopped = false)
+    (hsusp : (run cfg evs).susp = false) (hp : (run cfg evs).F.app < (run cfg evs).L.app) :
+    (next cfg (run cfg evs) (.step .a .none)).1.F.app = (run cfg evs).F.app + 1 ∧
+    (next cfg (run cfg evs) (.step .a .none)).1.gack = (run cfg evs).F.app + 1 ∧
+    (next cfg (run cfg evs) (.step .a .none)).1.F.get ((run cfg evs).F.app + 1)
       = (run cfg evs).L.get ((run cfg evs).F.app + 1) ∧
-    Synced (next cfg (run cfg evs) (.step .none)).1 := by
-  have hb := binv_run cfg evs
-  generalize run cfg evs = s at *
-  have hc : s.cons = s.F.app := hb.1.sync hs.1 (by rw [hs.2]; intro e; cases e)
-  have hl := hb.1.lint
-  have hf := hb.1.fint
-  obtain ⟨m, hm⟩ := hl.holes (s.cons + 1) (by have := hl.ack_gack; have := hl.gack_cons; omega) (by omega)
-  have hne : s.stream ≠ .none := by rw [hs.2]; intro e; cases e
-  have hup : ¬ (s.stream ≠ .up ∨ Fault.none = Fault.send) := by
-    rw [hs.2]; simp
-  have hg : s.gack ≤ s.F.app + 1 ∧ s.F.app + 1 ≤ s.cons + 1 := by
-    have := hl.gack_cons; omega
-  have h1 : isReady cfg s .none = (s, true) := by
-    unfold isReady; rw [if_pos hs.1]
-  have h2 : connect s .none = (s, true) := by
-    unfold connect; rw [if_pos hne]
-  have h3 : sendPhase s .none =
-      ({ s with cons := s.cons + 1, F := s.F.put m, gack := s.F.app + 1 }, Out.acked) := by
-    unfold sendPhase consume
-    rw [if_pos (by omega : s.cons + 1 ≤ s.L.app)]
-    dsimp only
-    rw [if_neg (by have := hl.ack_ge; have := hl.ack_gack; have := hl.gack_cons; omega : ¬ s.cons + 1 < 0), hm]
-    dsimp only
-    unfold replicaSend replicaLog
-    dsimp only
-    rw [if_neg hup, if_neg (by omega : ¬ s.cons + 1 ≠ s.F.app + 1)]
-    dsimp only
-    rw [if_neg (show ¬ Fault.none = Fault.recv by intro e; cases e), if_pos (by omega : s.F.app + 1 = s.cons + 1)]
-    unfold ackGroup
-    dsimp only
-    rw [if_pos hg]
-  have h4 : next cfg s (.step .none) =
-      ({ s with cons := s.cons + 1, F := s.F.put m, gack := s.F.app + 1 }, Out.acked) := by
-    simp only [next]
-    rw [if_neg (by rw [hsusp]; simp)]
-    unfold replicaStep
-    rw [h1]
-    dsimp only
-    rw [if_pos rfl, h2]
-    dsimp only
-    rw [if_pos rfl, h3]
-  rw [h4]
-  dsimp only
-  refine ⟨rfl, by simp only [Log.put], rfl, ?_, ⟨hs.1, hs.2⟩⟩
-  rw [get_put_eq hf.ack_app, ← hc, hm]
+    Synced (next cfg (run cfg evs) (.step .a .none)).1 := by
+  rw [next_step_a cfg _ _ hg hst hsusp]
+  have h := replicaStep_none_progress cfg _ (full_run cfg evs).a hst hs hd
+  rw [if_pos hp] at h
+  exact ⟨h.2.2.2.1, (h.2.2.2.2 hp).1, (h.2.2.2.2 hp).2, h.1⟩
 
 /-- Resynchronisation needs no operator: from ANY reachable state whose channel is not ready
 (after any fault), with the follower live and the loop not parked, one fault-free
 `partition.replica` call ends with the channel synced. -/
 theorem resync_one_step (cfg : Cfg) (evs : List Ev) (hn : (run cfg evs).chan ≠ .ready)
+    (hg : (run cfg evs).gone = false) (hst : (run cfg evs).stopped = false)
     (hl : (run cfg evs).live = true) (hs : (run cfg evs).susp = false) :
-    Synced (next cfg (run cfg evs) (.step .none)).1 := by
-  simp only [next]
-  rw [if_neg (by rw [hs]; simp)]
-  exact replicaStep_none_syncs cfg _ (binv_run cfg evs).1 hn hl
+    Synced (next cfg (run cfg evs) (.step .a .none)).1 := by
+  rw [next_step_a cfg _ _ hg hst hs]
+  exact replicaStep_none_syncs cfg _ (full_run cfg evs).a hn hl
 
 /-- The same for a loop parked on an offline follower: the online notification alone resumes it
 and, without a further fault, the channel ends synced. -/
 theorem resync_online (cfg : Cfg) (evs : List Ev) (hn : (run cfg evs).chan ≠ .ready)
+    (hg : (run cfg evs).gone = false) (hst : (run cfg evs).stopped = false)
     (hs : (run cfg evs).susp = true) :
-    Synced (next cfg (run cfg evs) (.online .none)).1 := by
-  simp only [next]
-  rw [if_pos hs]
-  exact replicaStep_none_syncs cfg _ (inv_mk (binv_run cfg evs).1 rfl rfl rfl rfl rfl rfl rfl) hn rfl
+    Synced (next cfg (run cfg evs) (.online .a .none)).1 := by
+  simp only [next, hg, Ev.who, peerEv, hst, hs, Bool.false_eq_true, if_false, if_true]
+  exact replicaStep_none_syncs cfg _ (invA_mk (full_run cfg evs).a rfl rfl rfl rfl rfl rfl rfl rfl hst.symm) hn rfl
 
 /-- A synced channel stays synced under fault-free steps. -/
 theorem resync_stays_synced (cfg : Cfg) (evs : List Ev) (h : Synced (run cfg evs))
-    (hs : (run cfg evs).susp = false) :
-    Synced (next cfg (run cfg evs) (.step .none)).1 := by
-  simp only [next]
-  rw [if_neg (by rw [hs]; simp)]
+    (hg : (run cfg evs).gone = false) (hst : (run cfg evs).stopped = false) (hs : (run cfg evs).susp = false) :
+    Synced (next cfg (run cfg evs) (.step .a .none)).1 := by
+  rw [next_step_a cfg _ _ hg hst hs]
   exact replicaStep_none_stays cfg _ h
+
+/-- Liveness as a post-condition, repeated-fault case: after ANY history — any number and mix of
+faults — two consecutive fault-free replica calls of a live, non-parked, registered follower end with
+the channel synced; the only exception is a channel that is `ready` on a dead stream with nothing
+to send (nothing is pending then, and the first later message makes the next call fail and the one
+after that resynchronise). -/
+theorem resync_two_steps (cfg : Cfg) (evs : List Ev)
+    (hg : (run cfg evs).gone = false) (hst : (run cfg evs).stopped = false)
+    (hl : (run cfg evs).live = true) (hs : (run cfg evs).susp = false) :
+    Synced (run cfg (evs ++ [.step .a .none, .step .a .none])) ∨
+    ((run cfg evs).chan = .ready ∧ (run cfg evs).stream = .broken ∧ (run cfg evs).L.app ≤ (run cfg evs).cons) := by
+  have hb := full_run cfg evs
+  have hf := replicaStep_flags cfg (run cfg evs) .none hl hs
+  have e1 : run cfg (evs ++ [.step .a .none, .step .a .none]) =
+      (replicaStep cfg (replicaStep cfg (run cfg evs) .none).1 .none).1 := by
+    have : evs ++ [Ev.step .a .none, Ev.step .a .none] = (evs ++ [Ev.step .a .none]) ++ [Ev.step .a .none] := by simp
+    rw [this, run_snoc, run_snoc, next_step_a cfg _ _ hg hst hs,
+      next_step_a cfg _ _ (hf.2.2.2.trans hg) (hf.2.2.1.trans hst) hf.2.1]
+  rw [e1]
+  exact two_steps_sync cfg _ hb.a hb.bndA hst hl hs
+
+/-- Catch-up: from a synced, undisturbed channel, `k` fault-free steps bring the follower to
+`min (appended + k, leader appended)` and the channel stays synced. -/
+theorem resync_catch_up (cfg : Cfg) (evs : List Ev) (k : Nat) (hsy : Synced (run cfg evs))
+    (hd : (run cfg evs).dz = false) (hg : (run cfg evs).gone = false) (hst : (run cfg evs).stopped = false)
+    (hl : (run cfg evs).live = true) (hs : (run cfg evs).susp = false) :
+    Synced (run cfg (evs ++ List.replicate k (.step .a .none))) ∧
+    (run cfg (evs ++ List.replicate k (.step .a .none))).F.app =
+      min ((run cfg evs).F.app + k) (max (run cfg evs).F.app (run cfg evs).L.app) ∧
+    (run cfg (evs ++ List.replicate k (.step .a .none))).L = (run cfg evs).L := by
+  induction k generalizing evs with
+  | zero =>
+    have e0 : evs ++ List.replicate 0 (Ev.step .a .none) = evs := by simp
+    rw [e0]
+    exact ⟨hsy, by simp only [Int.natCast_zero, Int.add_zero]; omega, rfl⟩
+  | succ k ih =>
+    have hb := full_run cfg evs
+    have hf := replicaStep_flags cfg (run cfg evs) .none hl hs
+    have hp := replicaStep_none_progress cfg _ hb.a hst hsy hd
+    have e1 : run cfg (evs ++ [.step .a .none]) = (replicaStep cfg (run cfg evs) .none).1 := by
+      rw [run_snoc, next_step_a cfg _ _ hg hst hs]
+    have e2 : evs ++ List.replicate (k + 1) (Ev.step .a .none) = (evs ++ [Ev.step .a .none]) ++ List.replicate k (Ev.step .a .none) := by
+      simp [List.replicate_succ]
+    have := ih (evs ++ [.step .a .none]) (by rw [e1]; exact hp.1) (by rw [e1]; exact hp.2.1)
+      (by rw [e1]; exact hf.2.2.2.trans hg) (by rw [e1]; exact hf.2.2.1.trans hst) (by rw [e1]; exact hf.1) (by rw [e1]; exact hf.2.1)
+    rw [e2]
+    refine ⟨this.1, ?_, ?_⟩
+    · rw [this.2.1, e1, hp.2.2.2.1, hp.2.2.1]
+      split <;> omega
+    · rw [this.2.2, e1, hp.2.2.1]
 
 /-! ## 5. ties to the regenerated facts (replica/*.go, app/storage/rpc/replica.go, pkg/queue/*.go) -/
 
@@ -304,7 +416,9 @@ theorem resetAppendIndex_eq (s : St) (idx : Int) :
         L := s.L.setAppended (C08.resetAppendSeq idx)
         cons := C08.resetAppendSeq idx
         gack := C08.resetAppendSeq idx
-        oack := C08.resetAppendSeq idx } := rfl
+        cons2 := if s.stopped2 then s.cons2 else C08.resetAppendSeq idx
+        gack2 := if s.stopped2 then s.gack2 else C08.resetAppendSeq idx
+        dz2 := if s.chan2 = .ready then true else s.dz2 } := rfl
 theorem appendIndex_eq (a : Int) : C08.appendIndexOf a = a + 1 := rfl
 
 /-- IsReady: the equality test, the two switch cases, the index formulas, the arguments of the
@@ -333,77 +447,161 @@ theorem isReady_calls : C08.isReadyCalls =
      "state.Store", "r.ResetReplicaIndex", "state.Store", "r.ResetAppendIndex", "state.Store", "r.ResetReplicaIndex",
      "r.SetAckIndex", "r.ReplicaIndex", "state.Store", "state.Store"] := rfl
 
-/-- NewConsumerGroup on re-open lifts the group's ack to the queue's ack -/
-theorem reopen_lift (g a : Int) : C08.reopenLiftCond g a = decide (g < a) := rfl
-
-/-- fanOutQueue.Sync (min over groups starting from appended, applied when ≥ 0) and IsExpire's prefix -/
-theorem gc_eq (cfg : Cfg) (s : St) :
-    (next cfg s .gc).1 =
-      (let a1 := if C08.syncMinCond s.gack s.L.app = true then s.gack else s.L.app
-       let a2 := if C08.syncMinCond s.oack a1 = true then s.oack else a1
+/-- fanOutQueue.Sync: nothing without a registered group; else the minimum over the registered
+groups starting from appended, applied when ≥ 0 -/
+theorem syncGC_eq (s : St) :
+    syncGC s =
+      (if s.stopped = true ∧ s.stopped2 = true then s else
+       let a1 := if s.stopped = false ∧ C08.syncMinCond s.gack s.L.app = true then s.gack else s.L.app
+       let a2 := if s.stopped2 = false ∧ C08.syncMinCond s.gack2 a1 = true then s.gack2 else a1
        if C08.syncApplyCond a2 = true then { s with L := s.L.setAck a2 } else s) := by
-  simp only [next, C08.syncMinCond, C08.syncApplyCond, decide_eq_true_eq, ge_iff_le]
-theorem isExpire_calls : C08.isExpireCalls = ["log.Sync", "log.Queue", "log.Queue().GC"] := rfl
+  simp only [syncGC, C08.syncMinCond, C08.syncApplyCond, decide_eq_true_eq, ge_iff_le]
+theorem sync_conds : C08.syncConds = ["len(fq.consumerGroups) == 0", "ts < ackSeq", "ackSeq >= 0"] := rfl
+
+/-- partition.IsExpire: Sync, GC, the write-window test, then per registered group `!IsEmpty()` ⇒ has
+data, else stopReplicator; `IsEmpty` is `appended <= acknowledged` -/
+theorem isExpire_calls : C08.isExpireCalls =
+    ["log.Sync", "log.Queue", "log.Queue().GC", "shard.Database", "shard.Database().GetOption",
+     "opt.GetAcceptWritableRange", "family.TimeRange", "timeutil.Now", "log.ConsumerGroupNames",
+     "log.GetOrCreateConsumerGroup", "consumerGroup.IsEmpty", "p.stopReplicator"] := rfl
+theorem isExpire_conds : C08.isExpireConds =
+    ["timeRange.End + ahead + 15 * timeutil.OneMinute > now", "!consumerGroup.IsEmpty()"] := rfl
+theorem isEmpty_eq (qh a : Int) : C08.isEmptyCond qh a = decide (qh ≤ a) := rfl
+theorem stopReplicator_calls : C08.stopReplicatorCalls =
+    ["log.StopConsumerGroup", "models.ParseNodeID", "replicator.Close", "make"] := rfl
+theorem fanout_stop_calls : C08.fanoutStopGroupCalls = ["consumerGroup.Close", "delete"] := rfl
+
+/-- the model's `expire` stops follower A's group exactly under the generated drained test -/
+theorem expire_stops_iff (s : St) :
+    ((expire s).1.stopped = true ∧ s.stopped = false) ↔
+    (s.stopped = false ∧ C08.isEmptyCond (syncGC s).L.app (syncGC s).gack = true) := by
+  have hq := (Classical.em ((syncGC s).stopped = false ∧ (syncGC s).L.app ≤ (syncGC s).gack))
+  have hst : (syncGC s).stopped = s.stopped := by
+    have key : ∀ a : Int, (if 0 ≤ a then { s with L := s.L.setAck a } else s).stopped = s.stopped := by
+      intro a; split <;> rfl
+    unfold syncGC; split
+    · rfl
+    · exact key _
+  unfold expire C08.isEmptyCond
+  simp only [decide_eq_true_eq]
+  generalize syncGC s = t at hq hst
+  have hB : ∀ u : St, (if t.stopped2 = false ∧ t.L.app ≤ t.gack2 then stopB u else u).stopped = u.stopped := by
+    intro u; split <;> rfl
+  have hG : ∀ (c : Prop) [Decidable c] (u : St), (if c then (u, Out.idle) else ({ u with gone := true }, Out.expired)).1.stopped = u.stopped := by
+    intro c _ u; split <;> rfl
+  rw [hG, hB]
+  rcases hq with hq | hq
+  · rw [if_pos hq]
+    rw [hst] at hq
+    exact ⟨fun x => ⟨x.2, hq.2⟩, fun x => ⟨rfl, x.1⟩⟩
+  · rw [if_neg hq]
+    rw [hst] at hq ⊢
+    constructor
+    · intro x; rw [x.2] at x; cases x.1
+    · intro x; exact (hq x).elim
+
+/-- every branch condition of the functions the model mirrors, as source text -/
+theorem isReady_conds : C08.isReadyConds =
+    ["stateVal.state == models.ReplicatorReadyState", "!ok", "r.isSuspend.CompareAndSwap(false, true)", "err != nil",
+     "err != nil", "nextReplicaIdx == localReplicaIdx", "remoteLastReplicaAckIdx < smallestAckIdx", "err != nil",
+     (if C08.aheadFixed then "nextReplicaIdx > appendIdx" else "remoteLastReplicaAckIdx > appendIdx"),
+     "newLocalReplicaIdx == nextReplicaIdx"] := by
+  simp only [C08.isReadyConds, C08.aheadFixed]; rfl
+theorem replica_conds : C08.replicaConds = ["err != nil", "err != nil", "resp.AckIndex == resp.ReplicaIndex"] := rfl
+theorem partitionReplica_conds : C08.partitionReplicaConds =
+    ["replicator.IsReady() && replicator.Connect()", "seq >= 0", "err != nil"] := rfl
+theorem replicaLog_conds : C08.replicaLogConds = ["p.closed.Load()", "replicaIdx != appendIdx", "err != nil"] := rfl
+
+/-- NewConsumerGroup: re-open lifts consumed to the (lifted) ack; a new group starts at the queue's ack -/
+theorem liftAck_eq (g a : Int) : liftAck g a = (if C08.reopenLiftCond g a = true then a else g) := by
+  simp only [liftAck, C08.reopenLiftCond, decide_eq_true_eq]
+theorem liftCons_eq (c g : Int) : liftCons c g = (if C08.reopenConsumedCond c g = true then g else c) := by
+  simp only [liftCons, C08.reopenConsumedCond, decide_eq_true_eq]
+theorem newGroup_assigns : C08.newGroupAssigns =
+    ["ackSeq := int64(-1)", "ackSeq = int64(metaPage.ReadUint64(consumerGroupAcknowledgedSeqOffset))",
+     "ackSeq = ackOfQueue", "ackSeq = q.Queue().AcknowledgedSeq()", "consumedSeq := int64(-1)",
+     "consumedSeq = int64(metaPage.ReadUint64(consumerGroupConsumedSeqOffset))", "consumedSeq = ackSeq",
+     "consumedSeq = ackSeq"] := rfl
 
 end Tie
 
 /-! ## 6. non-vacuity -/
 
-/-- a history with a send failure and a follower restart that ends synced with the follower
-holding two positions -/
+/-- a history with a lost request and a follower restart that ends synced with follower A
+holding two positions, while follower B got everything -/
 def sample : List Ev :=
-  [.append [1], .append [2], .step .send, .step .none, .frestart, .append [3], .step .none, .step .none, .step .none]
+  [.append [1], .append [2], .step .a .send, .step .a .none, .frestart .a, .append [3], .step .a .none, .step .a .none,
+   .step .a .none, .step .b .none, .step .b .none, .step .b .none]
 
-example : NoLoss sample := by unfold NoLoss; decide
-example : Synced (run { fixed := false } sample) := by decide
-example : (run { fixed := false } sample).F.app = 2 ∧ (run { fixed := false } sample).gack = 2 ∧
-    (run { fixed := false } sample).F.get 1 = some [2] := by decide
+example : NoLoss sample := by
+  intro e he k hk
+  subst hk
+  simp [sample] at he
+example : Synced (run { fixed := true } sample) := by decide
+example : (run { fixed := true } sample).F.app = 2 ∧ (run { fixed := true } sample).gack = 2 ∧
+    (run { fixed := true } sample).F.get 1 = some [2] ∧ (run { fixed := true } sample).F2.app = 2 := by decide
 /-- `resync_progress`'s hypotheses are satisfiable -/
-example : Synced (run { fixed := false } [.append [1], .step .none, .append [2]]) ∧
-    (run { fixed := false } [.append [1], .step .none, .append [2]]).cons <
-      (run { fixed := false } [.append [1], .step .none, .append [2]]).L.app := by decide
+example : Synced (run { fixed := true } [.append [1], .step .a .none, .append [2]]) ∧
+    (run { fixed := true } [.append [1], .step .a .none, .append [2]]).F.app <
+      (run { fixed := true } [.append [1], .step .a .none, .append [2]]).L.app := by decide
 /-- `resync_handshake`'s hypotheses are satisfiable, in the branch that resets the follower -/
-example : (run { fixed := false } [.append [1], .step .none, .flose, .append [2], .step .none]).chan ≠ .ready ∧
-    (isReady { fixed := false } (run { fixed := false } [.append [1], .step .none, .flose, .append [2], .step .none]) .none).2 = true ∧
-    (isReady { fixed := false } (run { fixed := false } [.append [1], .step .none, .flose, .append [2], .step .none]) .none).1.F.ack = 0 := by
+example : (run { fixed := true } [.append [1], .step .a .none, .flose .a, .append [2], .step .a .none]).chan ≠ .ready ∧
+    (isReady { fixed := true } (run { fixed := true } [.append [1], .step .a .none, .flose .a, .append [2], .step .a .none]) .none).2 = true ∧
+    (isReady { fixed := true } (run { fixed := true } [.append [1], .step .a .none, .flose .a, .append [2], .step .a .none]) .none).1.F.ack = 0 := by
+  decide
+/-- `resync_one_step`'s, `resync_online`'s and `resync_two_steps`' hypotheses are satisfiable -/
+example : (run { fixed := true } [.append [1], .step .a .send]).chan ≠ .ready ∧
+    (run { fixed := true } [.append [1], .step .a .send]).live = true ∧
+    (run { fixed := true } [.append [1], .step .a .send]).susp = false := by decide
+example : (run { fixed := true } [.offline .a, .step .a .none]).chan ≠ .ready ∧
+    (run { fixed := true } [.offline .a, .step .a .none]).susp = true := by decide
+/-- `expire_safe` is about a reachable situation: the expiry check stops a drained group, keeps an undrained one -/
+example : (run { fixed := true } [.append [1], .step .a .none, .expire]).stopped = true ∧
+    (run { fixed := true } [.append [1], .step .a .none, .expire]).stopped2 = false ∧
+    (run { fixed := true } [.append [1], .step .a .none, .expire]).gone = false := by decide
+/-- restoring an OLDER image after a newer one is expressible -/
+example : (run { fixed := true } [.append [1], .lsnap, .append [2], .lsnap, .append [3], .lrestore 0, .lrestore 1]).L.app = 0 := by
   decide
 
-/-- `resync_one_step`'s and `resync_online`'s hypotheses are satisfiable -/
-example : (run { fixed := false } [.append [1], .step .send]).chan ≠ .ready ∧
-    (run { fixed := false } [.append [1], .step .send]).live = true ∧
-    (run { fixed := false } [.append [1], .step .send]).susp = false := by decide
-example : (run { fixed := false } [.offline, .step .none]).chan ≠ .ready ∧
-    (run { fixed := false } [.offline, .step .none]).susp = true := by decide
-
-/-! ## 7. where the code violates the agreement clause -/
+/-! ## 7. where the code violates the property -/
 
 namespace Neg
 
-/-- (b) The leader loses its tail (restore of the image taken after 4 replicated messages),
+/-- (1) The leader loses its tail (restore of the image taken after 4 replicated messages),
 re-appends three new messages — beyond what the follower holds — and only then handshakes:
 neither reset branch fires, the group's ack jumps to the follower's appended index, the channel is
 synced, and positions 4 and 5 hold different bytes on the two sides. -/
 def witnessB : List Ev :=
-  [.append [0xa0], .append [0xa1], .append [0xa2], .append [0xa3], .step .none, .step .none, .step .none, .step .none,
-   .lsnap, .append [0xa4], .append [0xa5], .step .none, .step .none, .lrestore,
-   .append [0xb4], .append [0xb5], .append [0xb6], .step .none]
+  [.append [0xa0], .append [0xa1], .append [0xa2], .append [0xa3], .step .a .none, .step .a .none, .step .a .none, .step .a .none,
+   .lsnap, .append [0xa4], .append [0xa5], .step .a .none, .step .a .none, .lrestore 0,
+   .append [0xb4], .append [0xb5], .append [0xb6], .step .a .none]
 
 theorem reappend_before_handshake (cfg : Cfg) :
-    Synced (run cfg witnessB) ∧
+    Synced (run cfg witnessB) ∧ (run cfg witnessB).dz = false ∧
     (run cfg witnessB).L.get 4 = some [0xb4] ∧ (run cfg witnessB).F.get 4 = some [0xa4] ∧
     (run cfg witnessB).L.get 5 = some [0xb5] ∧ (run cfg witnessB).F.get 5 = some [0xa5] ∧
     (run cfg witnessB).gack = 6 := by
   cases cfg with
   | mk fixed => cases fixed <;> decide
 
-/-- (d) The follower is ahead of the restored leader by EXACTLY one message. The guard
-`remoteLastReplicaAckIdx > appendIdx` compares a sequence with an index (sequence+1), so it does
-not fire; the replica index and the ack are moved past the leader's own append index, the channel
-becomes ready, and the leader's next append lands on a position the follower already holds: different
-bytes at position 4 while synced, and the leader's message b4 is never replicated. -/
+/-- the full-strength agreement clause for histories with leader tail loss ("whenever the
+channel is synced, a position held by both holds the same bytes") does not hold, for either shape
+of the guard -/
+theorem agreement_synced_full_fails (cfg : Cfg) :
+    ¬ (∀ evs : List Ev, Synced (run cfg evs) → (run cfg evs).dz = false → ∀ i m m',
+        (run cfg evs).L.get i = some m → (run cfg evs).F.get i = some m' → m = m') := by
+  intro h
+  have w := reappend_before_handshake cfg
+  have := h witnessB w.1 w.2.1 4 _ _ w.2.2.1 w.2.2.2.1
+  simp at this
+
+/-- (2, repaired in the tree by fix 32eabc8) The follower is ahead of the restored leader by EXACTLY
+one message. With the old guard `remoteLastReplicaAckIdx > appendIdx` (a sequence compared with an
+index) `ResetAppendIndex` is skipped and the leader's next append lands on a position the follower
+already holds. -/
 def witnessD : List Ev :=
-  [.append [0xa0], .append [0xa1], .append [0xa2], .append [0xa3], .step .none, .step .none, .step .none, .step .none,
-   .lsnap, .append [0xa4], .step .none, .lrestore, .step .none, .append [0xb4], .append [0xb5], .step .none]
+  [.append [0xa0], .append [0xa1], .append [0xa2], .append [0xa3], .step .a .none, .step .a .none, .step .a .none, .step .a .none,
+   .lsnap, .append [0xa4], .step .a .none, .lrestore 0, .step .a .none, .append [0xb4], .append [0xb5], .step .a .none]
 
 theorem follower_ahead_by_one :
     Synced (run { fixed := false } witnessD) ∧
@@ -411,8 +609,6 @@ theorem follower_ahead_by_one :
     (run { fixed := false } witnessD).F.get 5 = some [0xb5] ∧ (run { fixed := false } witnessD).gack = 5 := by
   decide
 
-/-- with the comparison repaired (`nextReplicaIdx > appendIdx`) the same history keeps agreement:
-the leader's append index is moved past the follower's log before the leader appends again -/
 theorem follower_ahead_by_one_fixed :
     Synced (run { fixed := true } witnessD) ∧
     (run { fixed := true } witnessD).L.get 4 = none ∧ (run { fixed := true } witnessD).F.get 4 = some [0xa4] ∧
@@ -420,16 +616,41 @@ theorem follower_ahead_by_one_fixed :
     (run { fixed := true } witnessD).L.get 6 = some [0xb5] := by
   decide
 
-/-- the full-strength agreement clause for histories with leader tail loss ("whenever the
-channel is synced, a position held by both holds the same bytes") does not hold, for either shape
-of the guard -/
-theorem agreement_synced_full_fails (cfg : Cfg) :
-    ¬ (∀ evs : List Ev, Synced (run cfg evs) → ∀ i m m',
-        (run cfg evs).L.get i = some m → (run cfg evs).F.get i = some m' → m = m') := by
+/-- (3) Two followers. Both have replicated 0..3; A also got 4..6; the leader loses its tail back to 3.
+B's handshake finds nothing to do (`ready`). A's handshake finds A ahead and calls `ResetAppendIndex`,
+i.e. `fanOutQueue.SetAppendedSeq`, which moves the queue AND EVERY group — B's too — to 6.
+Now the leader treats 4..6 as acknowledged by B, which holds only 0..3, B's channel is still `ready`,
+every later message is offered at an index B refuses (the "TODO: need reset" branch), nothing is
+acknowledged and nothing ever triggers a new handshake: B never receives b7, b8. -/
+def witnessE : List Ev :=
+  [.append [0xa0], .append [0xa1], .append [0xa2], .append [0xa3], .step .a .none, .step .a .none, .step .a .none, .step .a .none,
+   .step .b .none, .step .b .none, .step .b .none, .step .b .none, .lsnap,
+   .append [0xa4], .append [0xa5], .append [0xa6], .step .a .none, .step .a .none, .step .a .none, .lrestore 0,
+   .step .b .none, .step .a .none, .append [0xb7], .step .b .none, .append [0xb8], .step .b .none, .step .a .none, .step .a .none]
+
+theorem other_follower_moves_group (cfg : Cfg) :
+    (run cfg witnessE).chan2 = .ready ∧ (run cfg witnessE).stream2 = .up ∧ (run cfg witnessE).dz2 = true ∧
+    (run cfg witnessE).gack2 = 6 ∧ (run cfg witnessE).F2.app = 3 ∧ (run cfg witnessE).cons2 = 8 ∧
+    (run cfg witnessE).L.app = 8 ∧ (run cfg witnessE).F.app = 8 := by
+  cases cfg with
+  | mk fixed => cases fixed <;> decide
+
+/-- in that state the next message for B ends in the mismatched-answer branch again -/
+theorem mismatch_reachable (cfg : Cfg) :
+    (next cfg (run cfg (witnessE ++ [.append [0xb9]])) (.step .b .none)).2 = .mismatch := by
+  cases cfg with
+  | mk fixed => cases fixed <;> decide
+
+/-- the un-hedged soundness clause ("a ready channel with a live stream never treats a position as
+acknowledged that the follower has not appended") fails with two followers and leader tail loss -/
+theorem ack_sound_synced_full_fails (cfg : Cfg) :
+    ¬ (∀ evs : List Ev, (run cfg evs).chan2 = .ready → (run cfg evs).stream2 = .up →
+        (run cfg evs).gack2 ≤ (run cfg evs).F2.app) := by
   intro h
-  have w := reappend_before_handshake cfg
-  have := h witnessB w.1 4 _ _ w.2.1 w.2.2.1
-  simp at this
+  have w := other_follower_moves_group cfg
+  have := h witnessE w.1 w.2.1
+  rw [w.2.2.2.1, w.2.2.2.2.1] at this
+  omega
 
 end Neg
 
